@@ -8,6 +8,10 @@ function and for whole trees —
   one box (`resolve_percentages` + decorated `block_level_width`)             (`layoutBox_translate`)
   a whole tree of blocks, children placed at the parent's content edge         (`layoutNode_translate`)
 
+and of the pair "neutral wrapper div" (section `wrapper`): a plain `<div>` around the children of an auto-height
+block takes the geometry of the parent's content box and leaves every other box of the document where it was
+(`layoutBox_plain`, `layoutNode_wrapper`, `layoutNode_wrap_children`)
+
 so a rendering that is not moved as a whole by moving the page area disagrees with the model (before /repo
 165e254 the model itself was covariant too: the accumulated rtl shifts were relative; the pair targets absolute
 coordinates, e.g. the page origin returned for zero-height floats before /repo 50ab141).  Core Lean only.
@@ -199,6 +203,83 @@ end
 example : (match layoutNode (.box 200 .rtl) none (0 + 16) .rtl 16 C05Refine.exNode,
       layoutNode (.box 200 .rtl) none 0 .rtl 16 C05Refine.exNode with
     | .ok a, .ok b => decide (a = b.map (shiftG 16)) && decide (a.length = 3)
+    | _, _ => false) = true := by
+  decide +kernel
+
+/-! ### documents: a neutral wrapper changes nothing (model side of the `wrapper` section) -/
+
+/-- A plain `<div>`: no margin, border, padding; auto width and height; no min/max; direction and font size
+inherited. -/
+def plainStyle : NStyle := C05Refine.exStyle
+
+def wrapperGeo (x w : Rat) : Geo :=
+  { x := x, ml := 0, mr := 0, w := w, pl := 0, pr := 0, bl := 0, br := 0, mt := 0, mb := 0, pt := 0, pb := 0,
+    bt := 0, bb := 0, h := none }
+
+def plainUsed : Used :=
+  { marginLeft := some 0, marginRight := some 0, marginTop := some 0, marginBottom := some 0, paddingLeft := 0,
+    paddingRight := 0, paddingTop := 0, paddingBottom := 0, width := none, height := none, minWidth := 0,
+    minHeight := 0, maxWidth := .inf, maxHeight := .inf, borderLeft := 0, borderRight := 0, borderTop := 0,
+    borderBottom := 0 }
+
+theorem layoutBox_plain (w : Rat) (d : Dir) (cbH : Len) (x fs : Rat) (hw : 0 ≤ w) :
+    layoutBox (.box w d) cbH x fs plainStyle = .ok (wrapperGeo x w, plainUsed) := by
+  have h0 : ¬ (w < 0) := Rat.not_lt.mpr hw
+  have hz : w - (0 + 0 + 0 + 0 + 0 + 0) = w := by grind
+  cases cbH <;>
+    simp [layoutBox, plainStyle, C05Refine.exStyle, computeStyle, computeLen, computeMax, computeBorder,
+      resolvePercentages, percentageQ, percentageX, resolvePad, resolveMin, adjustBoxSizing, boxSizingDelta,
+      lenToRat, blockLevelWidthMinMax, handleMinMaxWidth, blockLevelWidth, blwCore, aboxOfUsed, widthOf, geoOf,
+      Ext.ltRat, CB.width, bind, Except.bind, pure, Except.pure, wrapperGeo, plainUsed, hz, h0]
+
+/-- (f)(g) **Neutral wrapper, documents** (the model side of the `wrapper` section): a plain `<div>` around a
+list of blocks, in a containing block of non-negative width, is laid out with the geometry of the space it is
+given (`x`, the whole width, no margins) and its children are laid out exactly as they were without it in an
+auto-height parent — in ltr and rtl, for every list of children. -/
+theorem layoutNode_wrapper (w : Rat) (d : Dir) (cbH : Len) (x fs : Rat) (hw : 0 ≤ w) (ks : List Node) :
+    layoutNode (.box w d) cbH x d fs (.mk plainStyle ks) =
+      (layoutKids (.box w d) none x d fs ks).map (fun l => wrapperGeo x w :: l) := by
+  have hfs : plainStyle.fontSize = none := rfl
+  have hdir : plainStyle.dir = none := rfl
+  have hx : (wrapperGeo x w).contentX = x := by simp only [Geo.contentX, wrapperGeo]; grind
+  simp only [layoutNode, hfs, hdir, layoutBox_plain w d cbH x fs hw, bind, Except.bind, hx]
+  have hw' : (wrapperGeo x w).w = w := rfl
+  have hh : plainUsed.height = none := rfl
+  rw [hw', hh]
+  cases layoutKids (.box w d) none x d fs ks <;> rfl
+
+/-- The same, seen from the parent (the shape the harness renders: the content of `<body>` wrapped in a
+`<div>`): for a parent with an auto height and a non-negative width, wrapping all its children in a plain
+`<div>` inserts one box — the wrapper, filling the parent's content box horizontally — and changes no other
+box of the document. -/
+theorem layoutNode_wrap_children (cb : CB) (cbH : Len) (x : Rat) (dir : Dir) (fs : Rat) (s : NStyle)
+    (ks : List Node) (g : Geo) (u : Used)
+    (hbox : layoutBox cb cbH x (match s.fontSize with | some f => f | none => fs) s = .ok (g, u))
+    (hauto : u.height = none) (hw : 0 ≤ g.w) :
+    layoutNode cb cbH x dir fs (.mk s [.mk plainStyle ks]) =
+      (layoutNode cb cbH x dir fs (.mk s ks)).map (fun l =>
+        match l with
+        | p :: rest => p :: wrapperGeo g.contentX g.w :: rest
+        | [] => []) := by
+  obtain ⟨ml, mr, mt, mb, pl, pr, pt, pb, bl, br, bt, bb, width, height, minW, minH, maxW, maxH, bs, sdir, sfs⟩ := s
+  cases sfs <;> cases sdir <;> simp only at hbox <;>
+  · simp only [layoutNode, layoutKids.eq_2, layoutKids.eq_1, bind, Except.bind, hbox, hauto,
+      layoutBox_plain g.w _ none g.contentX _ hw]
+    have hx : (wrapperGeo g.contentX g.w).contentX = g.contentX := by
+      simp only [Geo.contentX, wrapperGeo]; grind
+    have hw' : (wrapperGeo g.contentX g.w).w = g.w := rfl
+    have hh : plainUsed.height = none := rfl
+    have hfs : plainStyle.fontSize = none := rfl
+    have hdir : plainStyle.dir = none := rfl
+    simp only [hx, hw', hh, hfs, hdir]
+    generalize layoutKids (CB.box g.w _) none g.contentX _ _ ks = r
+    cases r <;> simp [Except.map, pure, Except.pure]
+
+/-- Non-vacuity: the example tree of `C05Refine` (a centred 50% child holding a padded grandchild) with the
+children of its root wrapped: one more box, the others unchanged. -/
+example : (match layoutNode (.box 200 .rtl) none 0 .rtl 16 (.mk plainStyle [.mk plainStyle [C05Refine.exNode]]),
+      layoutNode (.box 200 .rtl) none 0 .rtl 16 (.mk plainStyle [C05Refine.exNode]) with
+    | .ok (p :: q :: rest), .ok (p' :: rest') => decide (p = p' ∧ q = wrapperGeo 0 200 ∧ rest = rest' ∧ rest.length = 3)
     | _, _ => false) = true := by
   decide +kernel
 
